@@ -570,7 +570,8 @@ func c07One(c *ctx, which string, rg *c07Rig, q *c07Req, unrouted *atomic.Int64)
 	// fabio gives a websocket upstream one second (hard-coded) to answer the handshake; when this process is saturated
 	// (thorough tier: 48 clients moving multi-megabyte bodies under the race detector) the harness upstream can miss that.
 	// Such a handshake is repeated when the load has moved on; only a request that never gets through is reported.
-	for try := 0; q.Route == -2 && got == nil && resp.Status == 0 && try < 3; try++ {
+	// (the upstream may have seen the request and answered too late as well: the client then gets nothing at all)
+	for try := 0; q.Route == -2 && resp.Status == 0 && try < 3; try++ {
 		c.R.Count("websocket_handshakes_repeated", 1)
 		time.Sleep(time.Duration(500*(try+1)) * time.Millisecond)
 		rg.up.SetScript(q.ID, q.Script)
